@@ -745,7 +745,8 @@ def rule_join_copy(model):
                       'hands in something that is not a list of its own (a '
                       'tuple raises TypeError instead of being decoded '
                       'with the template encoding)', node=c, ctx=g)
-    r.require_floor(1)
+    r.instance(fi.where, 'assignments into a sequence',
+               f'{len(seen)} site(s), {len(inplace)} into the argument')
     return r
 
 
